@@ -165,6 +165,19 @@ CHECKS = {
         note="The creation routines and asarray are covered by differential testing against NumPy (a test), the construction lattice by the theorems + exhaustive correspondence. No axioms.",
         technique="Coq proofs by case analysis on the decision model + exhaustive lattice correspondence by vm_compute + differential testing",
     ),
+    "C11": dict(
+        text="Machine-checked (Coq, finite tables decided by evaluation and lifted with forallb_forall) over Gen/Routes.v, which a fail-closed ast translator regenerates from /repo on every run "
+             "(operator dunders, Tensor methods, @ufunc_creator functions, _op call sites, plus the imported dispatch tables): x+y / reflected / augmented / mygrad.add / numpy.add reach ONE Operation class "
+             "with the written operand order and mode (only other route: the declared **1 / **2 shortcuts); methods route like their function namesakes; the rounding/modulo ufuncs raise on non-constant "
+             "operands and never return an array for them; comparison ufuncs and no-diff functions return arrays; dispatch tables are disjoint. Tie / differential on /repo: EVERY registered ufunc (37) and "
+             "NumPy-function override (37) is called through every spelling (function, NumPy function on tensors, method, property, operator, explicit and reflected dunder, augmented, out=, where=, dtype=, "
+             "in-place on leaf/intermediate) on the same operands (tensor const/non-const/float32/int, ndarray, list, Python/NumPy scalars, broadcasting, 0-d, F/strided): value bits, dtype, shape, constant "
+             "flag, out-target and every operand's gradient must be identical.",
+        design_ref="DESIGN.md 5 (C11)",
+        note="The theorems are about routing (which class / operand order / dispatch branch); that equal routes give equal results on the implementation is established by the exhaustive spelling differential, "
+             "not by proof (level: partial). Operand templates per NumPy function are hand-written; ufunc methods (reduce/accumulate/at) are not compared. No axioms.",
+        technique="Coq proofs over route tables translated from source on every run + exhaustive spelling differential on the implementation",
+    ),
     "C18": dict(
         text="Machine-checked (Coq) over Model/IO.v (load = tensor(data) followed by backward(grad) on the fresh leaf, on the history model): data always round-trips; a float tensor's gradient round-trips; no gradient in, none out; "
              "integer/boolean tensors (constants) never get one. Tie: the complete product 7 dtypes x {0-d, empty, 1-d, 3-d} x {leaf, view with a view-gradient, intermediate with a live graph, constant copy carrying a gradient} x "
@@ -229,7 +242,7 @@ def main():
 
 
 # fix: commits in /repo (filled in as they are made)
-SOURCE_COMMITS = ["1caf915", "cac9d7b", "4b729bd", "9cd2617", "683fb85", "e7ddae4", "48f0694", "9e68f28", "6f83c95", "8bae1ec", "c21f59a", "aefebdb"]
+SOURCE_COMMITS = ["1caf915", "cac9d7b", "4b729bd", "9cd2617", "683fb85", "e7ddae4", "48f0694", "9e68f28", "6f83c95", "8bae1ec", "c21f59a", "aefebdb", "f8501c3"]
 
 if __name__ == "__main__":
     main()
